@@ -109,7 +109,10 @@ class Verifier:
                             detail={'reason': 'contract names loops %s that do not exist any more' % missing})]
             st = State()
             self.enter(ex, c, node, st)
-            res = ex.exec_block(node.body, st)
+            if getattr(c, 'decorated', False):
+                res = self.run_decorated(ex, node, st, qualname)
+            else:
+                res = ex.exec_block(node.body, st)
             self.exits(ex, c, res)
         except OutsideSubset as e:
             return [Obl(oid + '/subset', qualname, status=UNDECIDED,
@@ -120,13 +123,52 @@ class Verifier:
         gen_s = time.time() - t0
         return self.discharge(ex, oid, qualname, gen_s, only)
 
+    def run_decorated(self, ex, node, st, qualname):
+        """the function AS DECORATED in the source: the decorator expressions are evaluated and applied (innermost
+        first) to the undecorated function, and the result is called with the parameters of the contract"""
+        from .symex import Func, Outcome
+        import ast as _ast
+        if not node.decorator_list:
+            raise OutsideSubset('contract speaks about the decorated function, but %s has no decorator' % qualname)
+        f = Func(qualname + '.<undecorated>', node=node, closure=None)
+        for dec in reversed(node.decorator_list):
+            rr = ex.eval(dec, st)
+            if len(rr) != 1:
+                raise OutsideSubset('forking decorator expression')
+            st, d = rr[0]
+            rr = ex.call(d, [f], {}, st, dec)
+            if len(rr) != 1:
+                raise OutsideSubset('forking decorator application')
+            st, f = rr[0]
+        a = node.args
+        args = [st.env[x.arg] for x in a.posonlyargs + a.args]
+        kw = {x.arg: st.env[x.arg] for x in a.kwonlyargs}
+        call = _ast.Call(func=_ast.Name(id=node.name, ctx=_ast.Load()), args=[], keywords=[])
+        _ast.copy_location(call, node)
+        return [(s, Outcome.RET, v) for s, v in ex.call(f, args, kw, st, call)]
+
     def enter(self, ex, c, node, st):
         a = node.args
         names = [x.arg for x in a.posonlyargs + a.args + a.kwonlyargs]
         params = getattr(c, 'params', {})
+        pos = a.posonlyargs + a.args
+        dflt = {x.arg: d for x, d in zip(pos[len(pos) - len(a.defaults):], a.defaults)}
+        dflt.update({x.arg: d for x, d in zip(a.kwonlyargs, a.kw_defaults) if d is not None})
         for n in names:
             if n not in params:
-                raise OutsideSubset('contract gives no shape for parameter %s' % n)
+                # a parameter the contract does not name (added after the contract was written): if it has an integer or
+                # boolean default, the contract is proved for EVERY value of it (callers old and new are covered)
+                d = dflt.get(n)
+                if isinstance(d, ast.Constant) and isinstance(d.value, bool):
+                    st.env[n] = make_param(ex, st, n, 'bool')
+                elif isinstance(d, ast.Constant) and isinstance(d.value, int):
+                    st.env[n] = make_param(ex, st, n, 'int')
+                else:
+                    raise OutsideSubset('contract gives no shape for parameter %s' % n)
+                from .models import lib
+                lib('parameter %s of %s is not named by its contract: proved for every %s value'
+                    % (n, ex.fn, type(d.value).__name__))
+                continue
             st.env[n] = make_param(ex, st, n, params[n])
         if a.vararg or a.kwarg:
             for extra in (a.vararg, a.kwarg):
@@ -226,6 +268,15 @@ class Verifier:
                 if v == 'unsat':
                     continue
                 if v == 'sat':
+                    md = smt.model_to_dict(m)
+                    unev = sorted(k for k in md if str(k).startswith('UNEVALUATED_'))
+                    if unev:
+                        # the counter-model runs through an all()/any() whose elements the engine did not evaluate (an
+                        # unknown boolean): that is a gap of the engine, not a refutation
+                        status = UNDECIDED
+                        detail.update({'verdict': 'sat, but through an unevaluated all()/any()', 'unevaluated': unev,
+                                       'path': g.trace[-12:], 'info': g.info, 'model': md})
+                        continue
                     status = FAILED
                     detail.update({'verdict': 'sat', 'path': g.trace[-12:], 'info': g.info,
                                    'model': smt.model_to_dict(m)})
